@@ -29,6 +29,17 @@ CHECKS["C13"] = dict(level="exploration", engine="sweep",
    note="Trusts zmodel::huf (RFC 8878 4.2), bound to libzstd 1.5.7 by the section frames. Four-stream coding of fewer than 6 literals is outside the compressor's domain and excluded.",
    design="3/C13")
 
+CHECKS["C01"] = dict(level="model_checking", engine="xplore",
+   technique="explicit-state BFS over the abstract decoder state with block archetypes as alphabet, each transition a real frame bound to libzstd; plus complete libzstd parameter matrix",
+   text="What survives from block to block is a small control state (Huffman table live?, LL/OF/ML table none|predefined|rle|fse). All 56 reachable abstract states are expanded; from each, every applicable block archetype (raw/RLE blocks; literals raw|rle|Huffman 1/4 streams x size formats x direct/FSE weights|treeless; count forms 1/2/3 bytes; 5^3 table modes incl. repeat and max-log FSE; payload patterns: new offsets, every repeat-offset code with ll=0 and ll>0 incl. rep1-1, overlapping matches, match reaching the frame's first byte, LL code 35, ML code 52, 200 and 0x7F00 sequences) is appended and the frame is encoded by the spec encoder; libzstd must decode it to the spec executor's plaintext (binding), the strict walker must agree, and the crate must return the same bytes and consumed count through two front ends. Quick: full alphabet (60k archetypes) from the initial state, pairwise-reduced alphabet from the other 55; thorough: full alphabet everywhere. Second family: libzstd levels x windowLog x LDM x MinMatch x TargetCBlockSize x checksum/content-size x flush pattern over 10 inputs (every 13th of 21.6k in quick, all in thorough), each frame accepted by the walker and decoded by the crate through up to 7 front ends with metadata compared. Third: header field widths at boundaries through the public accessors, dictionary id reporting. Fourth: 52..57 combined extra bits behind up to 64 MiB of history.",
+   note="libzstd 1.5.7 is the meaning of 'valid'; frames it rejects are dropped and counted. Abstract states merge concrete tables of the same kind (concrete tables are enumerated in C12/C13).",
+   design="3/C01")
+CHECKS["C03"] = dict(level="fault_enumeration", engine="sweep",
+   technique="deviation-bounded fault enumeration (0/1/2 faults) on libzstd-validated seed frames plus complete byte-level spaces behind a valid prefix, in rlimit'ed watchdog'ed worker processes",
+   text="0 faults = ~260/520 seed frames (one per archetype class, all valid per libzstd); 1 fault = every truncation and every position x {0x00,0xFF,b^1,b^0x80,b+1} (all 255 values on frames <= 120 bytes in thorough); 2 faults = all position pairs x 9 value pairs on frames <= 40 bytes (thorough). Complete spaces: all 2^24 block headers, all compressed-block bodies of <= 2/3 bytes, all FSE descriptions of <= 2/3 bytes at the LL/OF/ML/Huffman-weight positions, all weight-header bytes x bodies, all 2-byte literals-header prefixes, all direct weight vectors of <= 4/5 weights. Hand-built hostile but well-formed frames (amplification, offsets past output, rep1-1=0, treeless/repeat without a table, RLE symbols beyond the alphabet, jump table past the end, sequence count above the bit stream, reserved block type, 128 MiB window, 4 GiB skippable frame). Dictionary truncations and byte faults, then decoding with every mutant that parsed. Each case through 8 front ends (2 for byte-complete spaces); after an error: drain, query every accessor, reset onto a good frame which must decode correctly on the same object. Oracle: no panic, no process death, no watchdog expiry (10 s), < 1 GiB heap.",
+   note="Workers run with an 8 GiB address-space limit; a worker death is re-run alone twice before it is reported. Out-of-bounds accesses that do not crash are not visible here (C04 covers the unsafe code; ASan tier not part of quick).",
+   design="3/C03")
+
 NOT_YET = {}
 
 def main():
